@@ -509,6 +509,243 @@ Proof.
     replace (p - i)%nat with (S (p - S i)) by lia. exact H2.
 Qed.
 
+(** * The two partitions of the work among goroutines *)
+
+Lemma in_seqZ : forall n a x, In x (seqZ a n) <-> a <= x < a + Z.of_nat n.
+Proof.
+  induction n as [|n IH]; intros a x; cbn [seqZ In].
+  - lia.
+  - rewrite IH. lia.
+Qed.
+
+Lemma NoDup_seqZ : forall n a, NoDup (seqZ a n).
+Proof.
+  induction n as [|n IH]; intro a; cbn [seqZ]; constructor.
+  - rewrite in_seqZ. lia.
+  - apply IH.
+Qed.
+
+(** ** linearSearch.Process: the blocks of decrements *)
+
+Lemma lin_bs_pos limit cf : 1 <= lin_bs limit cf.
+Proof. unfold lin_bs. destruct (Z.quot limit cf <? 1) eqn:E; lia. Qed.
+
+Lemma lin_bs_le limit cf : 1 <= cf -> cf - 1 <= limit -> (cf - 1) * lin_bs limit cf <= limit.
+Proof.
+  intros Hcf Hl. unfold lin_bs. destruct (Z.quot limit cf <? 1) eqn:E.
+  - lia.
+  - apply Z.ltb_ge in E.
+    assert (0 <= limit) by lia.
+    rewrite Z.quot_div_nonneg in * by lia.
+    pose proof (Z.mul_div_le limit cf ltac:(lia)). nia.
+Qed.
+
+Definition in_block (limit cf i d : Z) : Prop :=
+  i * lin_bs limit cf <= d < (if i =? cf - 1 then limit else (i + 1) * lin_bs limit cf).
+
+Lemma in_block_decs limit cf i d :
+  In d (block_decs (lin_block limit cf i)) <-> in_block limit cf i d.
+Proof.
+  unfold block_decs, lin_block, in_block. cbn [fst snd]. rewrite in_seqZ.
+  set (a := i * lin_bs limit cf). set (b := if i =? cf - 1 then limit else (i + 1) * lin_bs limit cf).
+  lia.
+Qed.
+
+Lemma in_lin_decs limit cf d :
+  In d (lin_decs limit cf) <-> exists i, 0 <= i < cf /\ in_block limit cf i d.
+Proof.
+  unfold lin_decs, lin_blocks. rewrite in_flat_map. split.
+  - intros (se & Hse & Hd). apply in_map_iff in Hse as (i & <- & Hi).
+    apply in_seqZ in Hi. apply in_block_decs in Hd. exists i. split; [lia|exact Hd].
+  - intros (i & Hi & Hd). exists (lin_block limit cf i). split.
+    + apply in_map. apply in_seqZ. lia.
+    + now apply in_block_decs.
+Qed.
+
+(** every decrement below the limit is tried by some goroutine, whatever GOMAXPROCS *)
+Lemma lin_decs_cover limit cf d : 1 <= cf -> 0 <= d < limit -> In d (lin_decs limit cf).
+Proof.
+  intros Hcf Hd. apply in_lin_decs. pose proof (lin_bs_pos limit cf) as Hbs.
+  set (bs := lin_bs limit cf) in *.
+  pose proof (Z.div_mod d bs ltac:(lia)) as Hdm.
+  pose proof (Z.mod_pos_bound d bs ltac:(lia)) as Hmb.
+  assert (Hq : 0 <= d / bs) by (apply Z.div_pos; lia).
+  destruct (Z_lt_le_dec (d / bs) (cf - 1)) as [Hlt|Hge].
+  - exists (d / bs). split; [lia|]. unfold in_block. fold bs.
+    replace (d / bs =? cf - 1) with false by lia. nia.
+  - exists (cf - 1). split; [lia|]. unfold in_block. fold bs.
+    replace (cf - 1 =? cf - 1) with true by lia. nia.
+Qed.
+
+(** no decrement is tried twice *)
+Lemma in_block_inj limit cf i j d :
+  0 <= i < cf -> 0 <= j < cf -> in_block limit cf i d -> in_block limit cf j d -> i = j.
+Proof.
+  unfold in_block. pose proof (lin_bs_pos limit cf) as Hbs. set (bs := lin_bs limit cf) in *.
+  intros Hi Hj H1 H2.
+  destruct (Z.eqb_spec i (cf - 1)), (Z.eqb_spec j (cf - 1)); try lia; nia.
+Qed.
+
+(** when GOMAXPROCS - 1 <= limit the decrements tried are exactly 0 .. limit-1 *)
+Lemma lin_decs_exact limit cf d : 1 <= cf -> cf - 1 <= limit ->
+  In d (lin_decs limit cf) -> 0 <= d < limit.
+Proof.
+  intros Hcf Hl H. apply in_lin_decs in H as (i & Hi & H). unfold in_block in H.
+  pose proof (lin_bs_pos limit cf) as Hbs. pose proof (lin_bs_le limit cf Hcf Hl) as Hle.
+  set (bs := lin_bs limit cf) in *.
+  destruct (Z.eqb_spec i (cf - 1)); nia.
+Qed.
+
+(** ... otherwise decrements at or above the limit are tried too (finding C03-D21) *)
+Lemma lin_decs_beyond_witness : In 2 (lin_decs 2 4) /\ lin_decs 2 1 = [0; 1].
+Proof. split; vm_compute; tauto. Qed.
+
+(** ** Job.Execute: the slices of combination IDs *)
+
+Lemma comb_cpr_pos amount cf : 1 <= comb_cpr amount cf.
+Proof. unfold comb_cpr. destruct (amount / cf <? 1) eqn:E; lia. Qed.
+
+Lemma comb_slices_cover amount cf id : 0 <= id < amount ->
+  exists se, In se (comb_slices amount cf) /\ fst se <= id < snd se.
+Proof.
+  intros Hid. unfold comb_slices. pose proof (comb_cpr_pos amount cf) as Hc.
+  set (cpr := comb_cpr amount cf) in *.
+  pose proof (Z.div_mod id cpr ltac:(lia)) as Hdm.
+  pose proof (Z.mod_pos_bound id cpr ltac:(lia)) as Hmb.
+  assert (Hq : 0 <= id / cpr) by (apply Z.div_pos; lia).
+  exists ((id / cpr) * cpr, Z.min ((id / cpr + 1) * cpr) amount). split.
+  - apply in_map_iff. exists (id / cpr). split; [reflexivity|]. apply in_seqZ.
+    assert (id / cpr + 1 <= (amount + cpr - 1) / cpr) by (apply Z.div_le_lower_bound; nia).
+    lia.
+  - cbn [fst snd]. nia.
+Qed.
+
+Lemma comb_slices_range amount cf se : In se (comb_slices amount cf) ->
+  0 <= fst se < amount /\ fst se <= snd se <= amount.
+Proof.
+  unfold comb_slices. pose proof (comb_cpr_pos amount cf) as Hc.
+  set (cpr := comb_cpr amount cf) in *.
+  intro H. apply in_map_iff in H as (i & <- & Hi). apply in_seqZ in Hi. cbn [fst snd].
+  destruct (Z_le_gt_dec ((amount + cpr - 1) / cpr) 0) as [Hz|Hz]; [lia|].
+  pose proof (Z.mul_div_le (amount + cpr - 1) cpr ltac:(lia)) as Hm.
+  assert (i + 1 <= (amount + cpr - 1) / cpr) by lia.
+  nia.
+Qed.
+
+(** ** The combinations one worker visits *)
+
+Lemma scan_combs_valid m : forall fuel s c, Valid m s -> In c (scan_combs fuel m s) ->
+  Valid m c /\ length c = length s.
+Proof.
+  induction fuel as [|f IH]; intros s c V H; cbn [scan_combs] in H; [destruct H|].
+  destruct H as [<-|H]; [tauto|].
+  destruct (next m s) as [[|] s'] eqn:N; [|destruct H].
+  destruct (next_true _ _ _ V N) as (V' & L' & _).
+  destruct (IH _ _ V' H) as (H1 & H2). split; [exact H1|congruence].
+Qed.
+
+Lemma scan_combs_cover m : forall fuel s c, Valid m s -> Valid m c -> length c = length s ->
+  rank m s <= rank m c < rank m s + Z.of_nat fuel -> In c (scan_combs fuel m s).
+Proof.
+  induction fuel as [|f IH]; intros s c V Vc L R; [lia|].
+  cbn [scan_combs]. destruct (Z.eq_dec (rank m c) (rank m s)) as [E|NE].
+  - left. symmetry. apply (rank_inj m); auto.
+  - right. pose proof (rank_bounds m c Vc) as Bc.
+    destruct (next_step_rank m s V) as (s' & N & V' & L' & R'); [rewrite <- L; lia|].
+    rewrite N. apply IH; auto; try congruence; lia.
+Qed.
+
+Lemma bz_pos m k : Z.of_nat k <= m + 1 -> 1 <= bz (m + 1) k.
+Proof.
+  intro H. unfold bz. pose proof (binom_pos (Z.to_nat (m + 1)) k ltac:(lia)). lia.
+Qed.
+
+Lemma worker_combs_ok m k se : Z.of_nat k <= m + 1 -> m + 1 < I63 -> bz (m + 1) k < W64 ->
+  0 <= fst se < bz (m + 1) k ->
+  exists cs, worker_combs m k se = Ok cs /\
+    (forall c, In c cs -> Valid m c /\ length c = k) /\
+    (forall c, Valid m c -> length c = k -> fst se <= rank m c < snd se -> In c cs).
+Proof.
+  intros Hk Hm Bk Hs. unfold worker_combs.
+  destruct (Z.eqb_spec (fst se) 0) as [E|NE].
+  - eexists. split; [reflexivity|]. pose proof (first_comb_valid m k Hk) as V.
+    assert (Lf : length (first_comb k) = k) by apply seqZ_length. split.
+    + intros c Hc. apply scan_combs_valid in Hc; [|exact V]. rewrite Lf in Hc. exact Hc.
+    + intros c Vc Lc Rc. apply scan_combs_cover; auto; [congruence|]. rewrite rank_first. lia.
+  - destruct (seek_total m k (fst se) Hk Hm Bk Hs) as (s & Es & V & Ls & Rs).
+    rewrite Es. cbn [bind]. eexists. split; [reflexivity|]. split.
+    + intros c Hc. apply scan_combs_valid in Hc; [|exact V]. rewrite Ls in Hc. exact Hc.
+    + intros c Vc Lc Rc. apply scan_combs_cover; auto; [congruence|]. rewrite Rs. lia.
+Qed.
+
+Lemma collect_map_ok {X Y} (f : X -> outcome Y) : forall l,
+  (forall x, In x l -> exists y, f x = Ok y) ->
+  exists ws, collect (map f l) = Ok ws /\ Forall2 (fun x y => f x = Ok y) l ws.
+Proof.
+  induction l as [|x l IH]; intro H.
+  - exists []. split; [reflexivity|constructor].
+  - destruct (H x (or_introl eq_refl)) as (y & Ey).
+    destruct IH as (ws & Ews & F); [intros z Hz; apply H; now right|].
+    exists (y :: ws). split; [|constructor; assumption].
+    cbn [map collect]. rewrite Ey. cbn [bind]. rewrite Ews. reflexivity.
+Qed.
+
+Lemma Forall2_in_l {X Y} (R : X -> Y -> Prop) l1 l2 x :
+  Forall2 R l1 l2 -> In x l1 -> exists y, In y l2 /\ R x y.
+Proof.
+  induction 1 as [|a b l1 l2 Hab F IH]; intro H; [destruct H|].
+  destruct H as [<-|H]; [exists b; split; [now left|exact Hab]|].
+  destruct (IH H) as (y & Hy & Hr). exists y. split; [now right|exact Hr].
+Qed.
+
+Lemma Forall2_in_r {X Y} (R : X -> Y -> Prop) l1 l2 y :
+  Forall2 R l1 l2 -> In y l2 -> exists x, In x l1 /\ R x y.
+Proof.
+  induction 1 as [|a b l1 l2 Hab F IH]; intro H; [destruct H|].
+  destruct H as [<-|H]; [exists a; split; [now left|exact Hab]|].
+  destruct (IH H) as (x & Hx & Hr). exists x. split; [now right|exact Hr].
+Qed.
+
+Lemma binom_le_pow2 : forall n k, binom n k <= 2 ^ Z.of_nat n.
+Proof.
+  induction n as [|n IH]; intros [|k].
+  - cbn. lia.
+  - rewrite binom_0_S. cbn. lia.
+  - rewrite binom_n_0. pose proof (Z.pow_pos_nonneg 2 (Z.of_nat (S n)) ltac:(lia) ltac:(lia)). lia.
+  - rewrite binom_S_S. pose proof (IH k). pose proof (IH (S k)).
+    rewrite Nat2Z.inj_succ, Z.pow_succ_r by lia. lia.
+Qed.
+
+(** somes *)
+Lemma somes_map_one {A B} (f : A -> option B) : forall l,
+  (1 <= length (somes (map f l)))%nat -> exists y, In y l /\ f y <> None.
+Proof.
+  induction l as [|a t IH]; cbn [map somes length]; [lia|].
+  destruct (f a) eqn:E.
+  - intros _. exists a. split; [now left|congruence].
+  - intro H. destruct (IH H) as (y & Hy & Hf). exists y. split; [now right|exact Hf].
+Qed.
+
+Lemma somes_map_two {A B} (f : A -> option B) : forall l,
+  (2 <= length (somes (map f l)))%nat ->
+  exists l1 x l2 y l3, l = l1 ++ x :: l2 ++ y :: l3 /\ f x <> None /\ f y <> None.
+Proof.
+  induction l as [|a t IH]; cbn [map somes length]; [lia|].
+  destruct (f a) eqn:E.
+  - cbn [length]. intro H. destruct (somes_map_one f t ltac:(lia)) as (y & Hy & Hf).
+    apply in_split in Hy as (l2 & l3 & ->).
+    exists [], a, l2, y, l3. split; [reflexivity|]. split; [congruence|exact Hf].
+  - intro H. destruct (IH H) as (l1 & x & l2 & y & l3 & -> & Hx & Hy).
+    exists (a :: l1), x, l2, y, l3. split; [reflexivity|]. tauto.
+Qed.
+
+Lemma somes_map_nil {A B} (f : A -> option B) : forall l,
+  somes (map f l) = [] -> forall x, In x l -> f x = None.
+Proof.
+  induction l as [|a t IH]; cbn [map somes]; intros H x Hx; [destruct Hx|].
+  destruct (f a) eqn:E; [discriminate|]. destruct Hx as [<-|Hx]; [exact E|]. now apply IH.
+Qed.
+
 Section Proofs.
   Variable D : Type.
   Variable deqb : D -> D -> bool.
@@ -832,14 +1069,24 @@ Section Proofs.
     - intros [H|[]]; discriminate.
   Qed.
 
+  Lemma comb_from_S f d loc tail reg ms :
+    comb_from (S f) d loc tail reg ms =
+    match comb_hits_at loc tail reg ms d with
+    | [] => comb_from f (S d) loc tail reg ms
+    | hs => hs
+    end.
+  Proof. reflexivity. Qed.
+
   Lemma comb_from_in fuel : forall d loc tail reg ms h,
     In h (comb_from fuel d loc tail reg ms) ->
     exists k, (d <= k < d + fuel)%nat /\ In h (comb_hits_at loc tail reg ms k).
   Proof.
-    induction fuel as [|f IH]; intros d loc tail reg ms h H; cbn [PCR0Search.comb_from] in H; [destruct H|].
-    destruct (comb_hits_at loc tail reg ms d) as [|h0 hs] eqn:E.
-    - destruct (IH _ _ _ _ _ _ H) as (k & Hk & Hin). exists k. split; [lia|exact Hin].
-    - exists d. split; [lia|]. now rewrite E.
+    induction fuel as [|f IH]; intros d loc tail reg ms h H.
+    - destruct H.
+    - rewrite comb_from_S in H.
+      destruct (comb_hits_at loc tail reg ms d) as [|h0 hs] eqn:E.
+      + destruct (IH _ _ _ _ _ _ H) as (k & Hk & Hin). exists k. split; [lia|exact Hin].
+      + exists d. split; [lia|]. rewrite E. exact H.
   Qed.
 
   Lemma in_comb_hits_at loc tail reg ms k v s :
@@ -1019,7 +1266,9 @@ Section Proofs.
       + apply Hsp; [reflexivity|]. right. split; [exact Hce|]. exists k1, b1. auto.
       + intro Hu. destruct (Hu loc comb m en' tail reg0 Een Em) as (_ & Hu2).
         assert (b1 = b2).
-        { eapply Hu2; eauto; fold ds; rewrite <- ?Ev; congruence. }
+        { apply (Hu2 k1 b1 k2 b2 Hk1 Hk2 Hb1 Hb2); fold ds.
+          - rewrite <- Ev, Es'. discriminate.
+          - rewrite Hs. discriminate. }
         subst b2. rewrite <- Ev in Hs. congruence.
   Qed.
 
@@ -1134,4 +1383,604 @@ Section Proofs.
     rewrite apply_result_eq; [exact Hr|]. eapply swaps_wf_range; eauto.
   Qed.
 
+  (** ** Completeness of one try *)
+
+  Lemma space_plain decs loc comb s :
+    match select (enabled_flags comb) log with m :: _ => m_data m = None | [] => True end ->
+    order_search loc (map (@m_dig D) (select (enabled_flags comb) log)) = Some s ->
+    space decs loc comb None s.
+  Proof.
+    intros Hh Eo. apply order_search_sound in Eo as (Hwf & Hl & Hr). rewrite map_length in Hwf.
+    unfold space. split; [exact Hwf|]. split; [exact Hl|]. split; [|exact Hr].
+    destruct (select (enabled_flags comb) log) as [|m en']; [reflexivity|]. now rewrite Hh.
+  Qed.
+
+  Lemma space_data decs loc comb m en' tail reg0 v s' :
+    select (enabled_flags comb) log = m :: en' -> m_data m = Some (tail, reg0) ->
+    acm_try loc tail (map (@m_dig D) (m :: en')) v = Some s' ->
+    ((exists d, In d decs /\ v = wrap64 (reg0 - d)) \/ comb_cand reg0 v) ->
+    space decs loc comb (Some v) s'.
+  Proof.
+    intros Een Em Hs' Hc. unfold PCR0Search.acm_try in Hs'.
+    apply order_search_sound in Hs' as (Hwf & Hl & Hr).
+    rewrite length_with_head, map_length in Hwf.
+    rewrite <- (enabled_digests_data comb m en' tail reg0 v Een Em) in Hr.
+    unfold space. rewrite Een, Em.
+    split; [exact Hwf|]. split; [exact Hl|]. split; [|exact Hr].
+    exists v. split; [reflexivity|exact Hc].
+  Qed.
+
+  Lemma block_hit_complete loc tail reg ms se d :
+    In d (block_decs se) -> acm_try loc tail ms (wrap64 (reg - d)) <> None ->
+    block_hit loc tail reg ms se <> None.
+  Proof.
+    intros Hd Ht. unfold PCR0Search.block_hit. apply first_some_not_None with (x := d); [exact Hd|].
+    destruct (acm_try loc tail ms (wrap64 (reg - d))); [discriminate|congruence].
+  Qed.
+
+  Lemma comb_from_complete : forall fuel d k loc tail reg ms,
+    (d <= k < d + fuel)%nat -> comb_hits_at loc tail reg ms k <> [] ->
+    comb_from fuel d loc tail reg ms <> [].
+  Proof.
+    induction fuel as [|f IH]; intros d k loc tail reg ms Hk Hh; [lia|].
+    rewrite comb_from_S. destruct (comb_hits_at loc tail reg ms d) as [|h0 hs] eqn:E.
+    - apply (IH (S d) k); [|exact Hh]. destruct (Nat.eq_dec d k) as [->|]; [congruence|lia].
+    - discriminate.
+  Qed.
+
+  Lemma comb_hits_at_in loc tail reg ms k bs s :
+    In bs (subsets k 0 64) -> acm_try loc tail ms (flip_reg reg bs) = Some s ->
+    In (flip_reg reg bs, s) (comb_hits_at loc tail reg ms k).
+  Proof.
+    intros Hb Ht. unfold PCR0Search.comb_hits_at. rewrite in_somes, in_map_iff.
+    exists bs. split; [|exact Hb]. rewrite Ht. reflexivity.
+  Qed.
+
+  Lemma comb_hits_at_complete loc tail reg ms k bs :
+    In bs (subsets k 0 64) -> acm_try loc tail ms (flip_reg reg bs) <> None ->
+    comb_hits_at loc tail reg ms k <> [].
+  Proof.
+    intros Hb Ht E. destruct (acm_try loc tail ms (flip_reg reg bs)) as [s|] eqn:Es; [|congruence].
+    pose proof (comb_hits_at_in loc tail reg ms k bs s Hb Es) as H. rewrite E in H. destruct H.
+  Qed.
+
+  Lemma acm_outcomes_none cf loc tail reg ms :
+    In SNone (acm_outcomes cf loc tail reg ms) ->
+    lin_hits cf loc tail reg ms = [] /\
+    (comb_enabled st = true -> comb_from (S comb_maxd) 0 loc tail reg ms = []).
+  Proof.
+    unfold PCR0Search.acm_outcomes. rewrite in_flat_map. intros (o & Ho & H).
+    destruct o as [|v' s'|].
+    - split; [now apply lin_outcomes_none|]. intro Ec. rewrite Ec in H.
+      unfold PCR0Search.comb_outcomes in H.
+      destruct (comb_from (S comb_maxd) 0 loc tail reg ms) as [|h0 hs]; [reflexivity|].
+      exfalso. apply in_flat_map in H as (x & _ & H). apply in_map_iff in H as (y & E & _). discriminate.
+    - destruct H as [H|[]]; discriminate.
+    - destruct H as [H|[]]; discriminate.
+  Qed.
+
+  Lemma acm_outcomes_all_none cf loc tail reg ms :
+    lin_hits cf loc tail reg ms = [] ->
+    (comb_enabled st = true -> comb_from (S comb_maxd) 0 loc tail reg ms = []) ->
+    acm_outcomes cf loc tail reg ms = [SNone].
+  Proof.
+    intros Hl Hc. unfold PCR0Search.acm_outcomes. rewrite Hl. cbn [lin_outcomes flat_map app].
+    destruct (comb_enabled st); [|reflexivity].
+    unfold PCR0Search.comb_outcomes. rewrite (Hc eq_refl). reflexivity.
+  Qed.
+
+  Definition lift_sres (sh : list nat) (o : sres) : tres :=
+    match o with
+    | SNone => TNone
+    | SFound v s => TFound (Some v) (shift_swaps sh s)
+    | SErr => TErr
+    end.
+
+  Definition head_plain (comb : list Z) : Prop :=
+    match select (enabled_flags comb) log with m :: _ => m_data m = None | [] => True end.
+
+  Lemma try_outcomes_plain cf loc comb : head_plain comb ->
+    try_outcomes cf loc comb =
+    match order_search loc (map (@m_dig D) (select (enabled_flags comb) log)) with
+    | Some s => [TFound None (shift_swaps (idx_shifts (enabled_flags comb) 0) s)]
+    | None => [TNone]
+    end.
+  Proof.
+    unfold head_plain, PCR0Search.try_outcomes.
+    destruct (select (enabled_flags comb) log) as [|m en']; [reflexivity|].
+    intro H. rewrite H. reflexivity.
+  Qed.
+
+  Lemma try_outcomes_data cf loc comb m en' tail reg0 :
+    select (enabled_flags comb) log = m :: en' -> m_data m = Some (tail, reg0) ->
+    try_outcomes cf loc comb =
+    map (lift_sres (idx_shifts (enabled_flags comb) 0))
+        (acm_outcomes cf loc tail reg0 (map (@m_dig D) (m :: en'))).
+  Proof.
+    intros E Hm. unfold PCR0Search.try_outcomes. rewrite E, Hm. reflexivity.
+  Qed.
+
+  Lemma head_cases comb :
+    head_plain comb \/
+    exists m en' tail reg0, select (enabled_flags comb) log = m :: en' /\ m_data m = Some (tail, reg0).
+  Proof.
+    unfold head_plain. destruct (select (enabled_flags comb) log) as [|m en']; [now left|].
+    destruct (m_data m) as [[tail reg0]|] eqn:E; [|now left].
+    right. exists m, en', tail, reg0. split; [reflexivity|exact E].
+  Qed.
+
+  (** a point of the searched space forces an event *)
+  Lemma try_no_none cf loc comb reg s :
+    space (lin_decs (lin_limit st) cf) loc comb reg s -> ~ In TNone (try_outcomes cf loc comb).
+  Proof.
+    intros (Hwf & Hl & Hreg & Hr) Hn.
+    destruct (head_cases comb) as [Hp|(m & en' & tail & reg0 & Een & Em)].
+    - rewrite (try_outcomes_plain cf loc comb Hp) in Hn.
+      assert (reg = None) as ->.
+      { unfold head_plain in Hp. destruct (select (enabled_flags comb) log) as [|m en']; [exact Hreg|].
+        rewrite Hp in Hreg. exact Hreg. }
+      rewrite enabled_digests_plain in Hr.
+      destruct (order_search loc (map (@m_dig D) (select (enabled_flags comb) log))) as [s0|] eqn:Eo.
+      + destruct Hn as [Hn|[]]; discriminate.
+      + revert Eo. apply (order_search_complete loc _ s); [now rewrite map_length|exact Hl|exact Hr].
+    - rewrite (try_outcomes_data cf loc comb m en' tail reg0 Een Em) in Hn.
+      apply in_map_iff in Hn as (o & Eo & Ho). destruct o; try discriminate. clear Eo.
+      apply acm_outcomes_none in Ho as (Hlin & Hcomb).
+      rewrite Een, Em in Hreg. destruct Hreg as (v & -> & Hv).
+      rewrite (enabled_digests_data comb m en' tail reg0 v Een Em) in Hr.
+      set (ds := map (@m_dig D) (m :: en')) in *.
+      assert (Ht : acm_try loc tail ds v <> None).
+      { unfold PCR0Search.acm_try. apply (order_search_complete loc _ s); [|exact Hl|exact Hr].
+        rewrite length_with_head. subst ds. rewrite map_length. rewrite Een in Hwf. exact Hwf. }
+      destruct Hv as [(d & Hd & ->)|(Hce & k & bs & Hk & Hbs & ->)].
+      + unfold lin_decs in Hd. apply in_flat_map in Hd as (se & Hse & Hd).
+        pose proof (block_hit_complete loc tail reg0 ds se d Hd Ht) as Hb.
+        unfold PCR0Search.lin_hits in Hlin.
+        pose proof (somes_map_nil _ _ Hlin se Hse). contradiction.
+      + apply (comb_from_complete (S comb_maxd) 0 k loc tail reg0 ds); [lia| |now apply Hcomb].
+        now apply (comb_hits_at_complete loc tail reg0 ds k bs).
+  Qed.
+
+  (** no point of the searched space: the try reports nothing *)
+  Lemma try_all_none cf loc comb :
+    (forall reg s, ~ space (lin_decs (lin_limit st) cf) loc comb reg s) ->
+    try_outcomes cf loc comb = [TNone].
+  Proof.
+    intro Hno. destruct (head_cases comb) as [Hp|(m & en' & tail & reg0 & Een & Em)].
+    - rewrite (try_outcomes_plain cf loc comb Hp).
+      destruct (order_search loc (map (@m_dig D) (select (enabled_flags comb) log))) as [s0|] eqn:Eo;
+        [|reflexivity].
+      exfalso. apply (Hno None s0). now apply space_plain.
+    - rewrite (try_outcomes_data cf loc comb m en' tail reg0 Een Em).
+      rewrite acm_outcomes_all_none; [reflexivity| |].
+      + destruct (lin_hits cf loc tail reg0 (map (@m_dig D) (m :: en'))) as [|[v s] t] eqn:E; [reflexivity|].
+        exfalso. assert (Hin : In (v, s) (lin_hits cf loc tail reg0 (map (@m_dig D) (m :: en'))))
+          by (rewrite E; now left).
+        apply in_lin_hits in Hin as (d & Hd & Ev & Ht).
+        apply (Hno (Some v) s). eapply space_data; eauto.
+      + intro Hce.
+        destruct (comb_from (S comb_maxd) 0 loc tail reg0 (map (@m_dig D) (m :: en'))) as [|[v s] t] eqn:E;
+          [reflexivity|].
+        exfalso. assert (Hin : In (v, s) (comb_from (S comb_maxd) 0 loc tail reg0 (map (@m_dig D) (m :: en'))))
+          by (rewrite E; now left).
+        apply comb_from_in in Hin as (k & Hk & Hin). apply in_comb_hits_at in Hin as (bs & Hbs & Ev & Ht).
+        apply (Hno (Some v) s). eapply space_data; eauto.
+        right. split; [exact Hce|]. exists k, bs. split; [lia|]. split; [exact Hbs|exact Ev].
+  Qed.
+
+  (** the internal error needs two goroutines of the linear search to succeed *)
+  Lemma try_err cf loc comb : In TErr (try_outcomes cf loc comb) ->
+    exists m en' tail reg0 i j d1 d2,
+      select (enabled_flags comb) log = m :: en' /\ m_data m = Some (tail, reg0) /\
+      0 <= i < cf /\ 0 <= j < cf /\ i <> j /\
+      in_block (lin_limit st) cf i d1 /\ in_block (lin_limit st) cf j d2 /\
+      acm_try loc tail (map (@m_dig D) (m :: en')) (wrap64 (reg0 - d1)) <> None /\
+      acm_try loc tail (map (@m_dig D) (m :: en')) (wrap64 (reg0 - d2)) <> None.
+  Proof.
+    intro H. destruct (head_cases comb) as [Hp|(m & en' & tail & reg0 & Een & Em)].
+    - rewrite (try_outcomes_plain cf loc comb Hp) in H.
+      destruct (order_search loc _); destruct H as [H|[]]; discriminate.
+    - rewrite (try_outcomes_data cf loc comb m en' tail reg0 Een Em) in H.
+      apply in_map_iff in H as (o & Eo & Ho). destruct o; try discriminate. clear Eo.
+      set (ds := map (@m_dig D) (m :: en')) in *.
+      unfold PCR0Search.acm_outcomes in Ho. apply in_flat_map in Ho as (o & Ho & H).
+      destruct o as [|v' s'|].
+      + destruct (comb_enabled st); [|destruct H as [H|[]]; discriminate].
+        exfalso. revert H. apply comb_outcomes_no_err.
+      + destruct H as [H|[]]; discriminate.
+      + clear H. apply lin_outcomes_err in Ho. unfold PCR0Search.lin_hits, lin_blocks in Ho.
+        rewrite map_map in Ho. apply somes_map_two in Ho as (l1 & i & l2 & j & l3 & El & Hi & Hj).
+        pose proof (NoDup_seqZ (Z.to_nat cf) 0) as Hnd. rewrite El in Hnd.
+        assert (Hij : i <> j).
+        { apply NoDup_remove_2 in Hnd. intro E. apply Hnd. subst j.
+          apply in_or_app. right. apply in_or_app. right. now left. }
+        assert (Hri : 0 <= i < cf).
+        { assert (Hin : In i (seqZ 0 (Z.to_nat cf))) by (rewrite El, in_app_iff; right; now left).
+          apply in_seqZ in Hin. lia. }
+        assert (Hrj : 0 <= j < cf).
+        { assert (Hin : In j (seqZ 0 (Z.to_nat cf)))
+            by (rewrite El; apply in_or_app; right; right; apply in_or_app; right; now left).
+          apply in_seqZ in Hin. lia. }
+        destruct (block_hit loc tail reg0 ds (lin_block (lin_limit st) cf i)) as [[v1 s1]|] eqn:E1; [|congruence].
+        destruct (block_hit loc tail reg0 ds (lin_block (lin_limit st) cf j)) as [[v2 s2]|] eqn:E2; [|congruence].
+        apply block_hit_Some in E1 as (d1 & Hd1 & -> & Ht1).
+        apply block_hit_Some in E2 as (d2 & Hd2 & -> & Ht2).
+        apply in_block_decs in Hd1. apply in_block_decs in Hd2.
+        exists m, en', tail, reg0, i, j, d1, d2. fold ds.
+        split; [exact Een|]. split; [exact Em|]. split; [exact Hri|]. split; [exact Hrj|].
+        split; [exact Hij|]. split; [exact Hd1|]. split; [exact Hd2|].
+        split; [rewrite Ht1|rewrite Ht2]; discriminate.
+  Qed.
+
+  Lemma try_no_err cf loc comb : acm_unique cf -> ~ In TErr (try_outcomes cf loc comb).
+  Proof.
+    intros Hu H. apply try_err in H as (m & en' & tail & reg0 & i & j & d1 & d2 & Een & Em & Hi & Hj & Hij & H1 & H2 & T1 & T2).
+    destruct (Hu loc comb m en' tail reg0 Een Em) as (Hu1 & _).
+    assert (d1 = d2).
+    { apply Hu1; try assumption; apply in_lin_decs; eauto. }
+    subst d2. apply Hij. eapply in_block_inj; eauto.
+  Qed.
+
+  (** an internal error only beside a success: two succeeding goroutines *)
+  Lemma try_err_found cf loc comb : In TErr (try_outcomes cf loc comb) ->
+    exists reg s, space (lin_decs (lin_limit st) cf) loc comb reg s.
+  Proof.
+    intro H. apply try_err in H as (m & en' & tail & reg0 & i & j & d1 & d2 & Een & Em & Hi & Hj & Hij & H1 & H2 & T1 & T2).
+    destruct (acm_try loc tail (map (@m_dig D) (m :: en')) (wrap64 (reg0 - d1))) as [s|] eqn:E; [|congruence].
+    exists (Some (wrap64 (reg0 - d1))), s. eapply space_data; eauto.
+    left. exists d1. split; [|reflexivity]. apply in_lin_decs. eauto.
+  Qed.
+
+  (** ** The workers of one level visit every combination *)
+
+  Definition no_overflow : Prop :=
+    Z.of_nat nlog + 1 < 2 ^ 63 /\ forall k, (k < kmax)%nat -> binom (S nlog) k < 2 ^ 64.
+
+  Lemma Ok_inj {X} (a b : X) : Ok a = Ok b -> a = b.
+  Proof. intro H. injection H. auto. Qed.
+
+  Lemma kmax_le : (kmax <= nlog)%nat.
+  Proof. unfold PCR0Search.kmax. lia. Qed.
+
+  Lemma level_workers_ok cf k : 1 <= cf -> no_overflow -> (k < kmax)%nat ->
+    exists ws, level_workers cf k = Ok ws /\
+      (forall cs c, In cs ws -> In c cs -> Valid (Z.of_nat nlog) c /\ length c = k) /\
+      (forall c, Valid (Z.of_nat nlog) c -> length c = k -> exists cs, In cs ws /\ In c cs).
+  Proof.
+    intros Hcf (Hm & Hb) Hk. pose proof kmax_le as Hkm.
+    unfold PCR0Search.level_workers. set (m := Z.of_nat nlog) in *.
+    assert (Hkm1 : Z.of_nat k <= m + 1) by lia.
+    assert (Hm' : m + 1 < I63) by (rewrite I63_pow; exact Hm).
+    assert (Bk : bz (m + 1) k < W64).
+    { rewrite W64_pow. unfold bz. replace (Z.to_nat (m + 1)) with (S nlog) by lia. now apply Hb. }
+    rewrite (amount64_exact m k) by (assumption || lia).
+    set (A := bz (m + 1) k) in *.
+    assert (Hw : forall se, In se (comb_slices A cf) ->
+              exists cs, worker_combs m k se = Ok cs /\
+                (forall c, In c cs -> Valid m c /\ length c = k) /\
+                (forall c, Valid m c -> length c = k -> fst se <= rank m c < snd se -> In c cs)).
+    { intros se Hse. apply comb_slices_range in Hse. apply worker_combs_ok; try assumption. lia. }
+    destruct (collect_map_ok (worker_combs m k) (comb_slices A cf)) as (ws & Ews & F).
+    { intros se Hse. destruct (Hw se Hse) as (cs & E & _). eauto. }
+    exists ws. split; [exact Ews|]. split.
+    - intros cs c Hcs Hc. destruct (Forall2_in_r _ _ _ cs F Hcs) as (se & Hse & E).
+      destruct (Hw se Hse) as (cs' & E' & Hv & _). rewrite E in E'. apply Ok_inj in E'. subst cs'.
+      now apply Hv.
+    - intros c Vc Lc. pose proof (rank_bounds m c Vc) as Rb. rewrite Lc in Rb. fold A in Rb.
+      destruct (comb_slices_cover A cf (rank m c) Rb) as (se & Hse & Hr).
+      destruct (Forall2_in_l _ _ _ se F Hse) as (cs & Hcs & E).
+      destruct (Hw se Hse) as (cs' & E' & _ & Hc). rewrite E in E'. apply Ok_inj in E'. subst cs'.
+      exists cs. split; [exact Hcs|]. now apply Hc.
+  Qed.
+
+  (** ** What one level can report *)
+
+  Lemma worker_events_none cf loc : forall combs,
+    In None (worker_events cf loc combs) -> forall c, In c combs -> In TNone (try_outcomes cf loc c).
+  Proof.
+    induction combs as [|c0 t IH]; intros H c Hc; [destruct Hc|].
+    cbn [PCR0Search.worker_events] in H. apply in_app_or in H as [H|H].
+    - apply in_map_iff in H as (o & E & _). discriminate.
+    - destruct (existsb is_tnone (try_outcomes cf loc c0)) eqn:Ee; [|destruct H].
+      destruct Hc as [<-|Hc]; [|now apply IH].
+      apply existsb_exists in Ee as (x & Hx & Ex). destruct x; try discriminate. exact Hx.
+  Qed.
+
+  Lemma worker_events_all_none cf loc : forall combs,
+    (forall c, In c combs -> try_outcomes cf loc c = [TNone]) -> worker_events cf loc combs = [None].
+  Proof.
+    induction combs as [|c0 t IH]; intro H; [reflexivity|].
+    cbn [PCR0Search.worker_events]. rewrite (H c0 (or_introl eq_refl)).
+    cbn [filter is_event map existsb is_tnone orb app]. apply IH. intros c Hc. apply H. now right.
+  Qed.
+
+  Lemma level_outcomes_inv cf loc ws o : In o (level_outcomes cf loc ws) ->
+    (exists r, o = JFound r /\ from_try cf loc ws r) \/
+    (o = JErr /\ exists cs c, In cs ws /\ In c cs /\ In TErr (try_outcomes cf loc c)) \/
+    (o = JNext /\ forall cs c, In cs ws -> In c cs -> In TNone (try_outcomes cf loc c)) \/
+    (o = JHang).
+  Proof.
+    unfold PCR0Search.level_outcomes. intro H. apply in_app_or in H as [H|H]; [|apply in_app_or in H as [H|H]].
+    - apply in_flat_map in H as (e & He & H). apply in_concat in He as (evs & Hevs & He).
+      apply in_map_iff in Hevs as (cs & <- & Hcs).
+      destruct e as [[c [|reg sw|]]|]; cbn [ev_results] in H; try (destruct H; fail).
+      + destruct H as [H|[]]. subst o. left. eexists. split; [reflexivity|].
+        apply worker_events_in in He as (Hc & Ho & _). exists cs, c, reg, sw. tauto.
+      + destruct H as [H|[]]. subst o. right. left. split; [reflexivity|].
+        apply worker_events_in in He as (Hc & Ho & _). exists cs, c. tauto.
+    - destruct (forallb (existsb is_none) (map (worker_events cf loc) ws)) eqn:E; [|destruct H].
+      destruct H as [H|[]]. subst o. right. right. left. split; [reflexivity|].
+      intros cs c Hcs Hc. rewrite forallb_forall in E.
+      specialize (E (worker_events cf loc cs) (in_map _ _ _ Hcs)).
+      apply existsb_exists in E as (x & Hx & Ex). destruct x; [discriminate|].
+      eapply worker_events_none; eauto.
+    - destruct (_ <? _); [|destruct H]. destruct H as [H|[]]. subst o. right. right. right. reflexivity.
+  Qed.
+
+  Lemma level_all_none cf loc ws : 1 <= cf ->
+    (forall cs c, In cs ws -> In c cs -> try_outcomes cf loc c = [TNone]) ->
+    level_outcomes cf loc ws = [JNext].
+  Proof.
+    intros Hcf H. unfold PCR0Search.level_outcomes.
+    assert (E : map (worker_events cf loc) ws = map (fun _ => [None]) ws).
+    { apply map_ext_in. intros cs Hcs. apply worker_events_all_none. intros c Hc. eapply H; eauto. }
+    rewrite E. clear E H.
+    assert (E1 : flat_map (ev_results D log loc) (concat (map (fun _ : list (list Z) => [@None (list Z * tres)]) ws)) = []).
+    { induction ws as [|w ws IH]; [reflexivity|]. cbn [map concat app flat_map ev_results]. exact IH. }
+    assert (E2 : forallb (existsb is_none) (map (fun _ : list (list Z) => [@None (list Z * tres)]) ws) = true).
+    { clear E1. induction ws as [|w ws IH]; [reflexivity|]. cbn [map forallb existsb is_none orb andb]. exact IH. }
+    assert (E3 : filter (existsb is_some) (map (fun _ : list (list Z) => [@None (list Z * tres)]) ws) = []).
+    { clear E1 E2. induction ws as [|w ws IH]; [reflexivity|]. cbn [map filter existsb is_some orb]. exact IH. }
+    rewrite E1, E2, E3. cbn [length app]. replace (cf + 1 <? Z.of_nat 0) with false by lia. reflexivity.
+  Qed.
+
+  (** ** The levels of one job *)
+
+  Lemma job_levels_inv cf loc : forall fuel k o, In o (job_levels fuel k cf loc) ->
+    (o = JNone /\ forall k', (k <= k' < k + fuel)%nat ->
+        exists ws, level_workers cf k' = Ok ws /\ In JNext (level_outcomes cf loc ws)) \/
+    (o = JPanic /\ exists k', (k <= k' < k + fuel)%nat /\ forall ws, level_workers cf k' <> Ok ws) \/
+    (exists k' ws, (k <= k' < k + fuel)%nat /\ level_workers cf k' = Ok ws /\
+        In o (level_outcomes cf loc ws) /\ o <> JNext).
+  Proof.
+    induction fuel as [|f IH]; intros k o H; cbn [PCR0Search.job_levels] in H.
+    - destruct H as [<-|[]]. left. split; [reflexivity|]. intros k' Hk'. lia.
+    - destruct (level_workers cf k) as [ws| | |] eqn:Ew.
+      + apply in_flat_map in H as (o' & Ho' & H).
+        assert (Hother : o' <> JNext -> In o [o'] ->
+                  exists k' ws, (k <= k' < k + S f)%nat /\ level_workers cf k' = Ok ws /\
+                    In o (level_outcomes cf loc ws) /\ o <> JNext).
+        { intros Hne [<-|[]]. exists k, ws. split; [lia|]. tauto. }
+        destruct o'; try (right; right; apply Hother; [discriminate|exact H]).
+        destruct (IH _ _ H) as [(-> & Hall)|[(-> & k' & Hk' & Hno)|(k' & ws' & Hk' & Hw & Hin & Hne)]].
+        * left. split; [reflexivity|]. intros k' Hk'.
+          destruct (Nat.eq_dec k' k) as [->|]; [exists ws; tauto|]. apply Hall. lia.
+        * right. left. split; [reflexivity|]. exists k'. split; [lia|exact Hno].
+        * right. right. exists k', ws'. split; [lia|tauto].
+      + destruct H as [<-|[]]. right. left. split; [reflexivity|]. exists k. split; [lia|]. intros ws E. rewrite Ew in E. discriminate.
+      + destruct H as [<-|[]]. right. left. split; [reflexivity|]. exists k. split; [lia|]. intros ws E. rewrite Ew in E. discriminate.
+      + destruct H as [<-|[]]. right. left. split; [reflexivity|]. exists k. split; [lia|]. intros ws E. rewrite Ew in E. discriminate.
+  Qed.
+
+  Lemma job_no_panic cf loc : 1 <= cf -> no_overflow -> ~ In JPanic (job cf loc).
+  Proof.
+    intros Hcf Hno H. unfold PCR0Search.job in H.
+    apply job_levels_inv in H as [(E & _)|[(_ & k' & Hk' & Hw)|(k' & ws & _ & _ & Hin & _)]].
+    - discriminate.
+    - destruct (level_workers_ok cf k' Hcf Hno ltac:(lia)) as (ws & E & _). now apply (Hw ws).
+    - apply level_outcomes_inv in Hin as [(r & E & _)|[(E & _)|[(E & _)|E]]]; discriminate.
+  Qed.
+
+  (** every combination of fewer than kmax measurements of the filtered log *)
+  Definition in_reach (c : list Z) : Prop := Valid (Z.of_nat nlog) c /\ (length c < kmax)%nat.
+
+  Lemma job_complete cf loc c reg s : 1 <= cf -> no_overflow -> acm_unique cf ->
+    in_reach c -> space (lin_decs (lin_limit st) cf) loc c reg s ->
+    forall o, In o (job cf loc) -> (exists r, o = JFound r) \/ o = JHang.
+  Proof.
+    intros Hcf Hno Hu (Vc & Lc) Hsp o H. unfold PCR0Search.job in H.
+    apply job_levels_inv in H as [(-> & Hall)|[(-> & k' & Hk' & Hw)|(k' & ws & _ & _ & Hin & Hne)]].
+    - exfalso. destruct (Hall (length c) ltac:(lia)) as (ws & Ew & Hn).
+      destruct (level_workers_ok cf (length c) Hcf Hno Lc) as (ws' & Ew' & _ & Hcov).
+      rewrite Ew in Ew'. apply Ok_inj in Ew'. subst ws'.
+      destruct (Hcov c Vc eq_refl) as (cs & Hcs & Hc).
+      apply level_outcomes_inv in Hn as [(r & E & _)|[(E & _)|[(_ & Hn)|E]]]; try discriminate.
+      apply (try_no_none cf loc c reg s Hsp). eapply Hn; eauto.
+    - exfalso. destruct (level_workers_ok cf k' Hcf Hno ltac:(lia)) as (ws & E & _). now apply (Hw ws).
+    - apply level_outcomes_inv in Hin as [(r & -> & _)|[(-> & cs & c' & _ & _ & He)|[(-> & _)| -> ]]].
+      + left. eauto.
+      + exfalso. now apply (try_no_err cf loc c' Hu).
+      + congruence.
+      + now right.
+  Qed.
+
+  Lemma job_none cf loc : 1 <= cf -> no_overflow ->
+    (forall c reg s, in_reach c -> ~ space (lin_decs (lin_limit st) cf) loc c reg s) ->
+    job cf loc = [JNone].
+  Proof.
+    intros Hcf Hno Hun. unfold PCR0Search.job.
+    assert (G : forall fuel k, (k + fuel <= kmax)%nat -> job_levels fuel k cf loc = [JNone]).
+    { induction fuel as [|f IH]; intros k Hk; [reflexivity|].
+      cbn [PCR0Search.job_levels].
+      destruct (level_workers_ok cf k Hcf Hno ltac:(lia)) as (ws & Ew & Hval & _). rewrite Ew.
+      rewrite (level_all_none cf loc ws Hcf).
+      - cbn [flat_map app]. rewrite IH by lia. reflexivity.
+      - intros cs c Hcs Hc. apply try_all_none. intros reg s. apply Hun.
+        destruct (Hval cs c Hcs Hc) as (V & L). split; [exact V|lia]. }
+    apply G. lia.
+  Qed.
+
+  (** ** The search space of the property and the theorems about [outcomes] *)
+
+  (** decrements 0 .. MaxACMPolicyLinearDistance-1 *)
+  Definition prop_decs : list Z := seqZ 0 (Z.to_nat (lin_limit st)).
+
+  Lemma in_prop_decs d : In d prop_decs <-> 0 <= d < lin_limit st.
+  Proof. unfold prop_decs. rewrite in_seqZ. lia. Qed.
+
+  (** the requested value can be produced: locality 0 or 3, fewer than
+      min(len, MaxDisabledMeasurements) measurements dropped, register
+      decreased by an element of [decs] or bit-flipped within the limit, at
+      most MaxReorders disjoint swaps *)
+  Definition reachable (decs : list Z) : Prop :=
+    exists loc c reg s, (loc = 0 \/ loc = 3) /\ in_reach c /\ space decs loc c reg s.
+
+  Lemma space_mono decs decs' loc c reg s :
+    (forall d, In d decs -> In d decs') -> space decs loc c reg s -> space decs' loc c reg s.
+  Proof.
+    intros Hsub (H1 & H2 & H3 & H4). split; [exact H1|]. split; [exact H2|]. split; [|exact H4].
+    destruct (select (enabled_flags c) log) as [|m en']; [exact H3|].
+    destruct (m_data m) as [[tail reg0]|]; [|exact H3].
+    destruct H3 as (v & E & [(d & Hd & Ev)|Hc]); exists v; (split; [exact E|]).
+    - left. exists d. split; [now apply Hsub|exact Ev].
+    - now right.
+  Qed.
+
+  Lemma reachable_mono decs decs' :
+    (forall d, In d decs -> In d decs') -> reachable decs -> reachable decs'.
+  Proof.
+    intros Hsub (loc & c & reg & s & Hl & Hr & Hs). exists loc, c, reg, s.
+    split; [exact Hl|]. split; [exact Hr|]. eapply space_mono; eauto.
+  Qed.
+
+  Lemma j_founds_inv o l : In o (j_founds l) -> exists r, o = FSome r /\ In (JFound r) l.
+  Proof.
+    unfold j_founds. rewrite in_flat_map. intros (x & Hx & H). destruct x; cbn in H; try tauto.
+    destruct H as [<-|[]]. eauto.
+  Qed.
+
+  Lemma j_nores_true l : j_nores l = true -> In JNone l \/ In JErr l.
+  Proof.
+    unfold j_nores. intro H. apply existsb_exists in H as (x & Hx & E).
+    destruct x; try discriminate; tauto.
+  Qed.
+
+  Lemma j_panic_true l : j_panic l = true -> In JPanic l.
+  Proof.
+    unfold j_panic. intro H. apply existsb_exists in H as (x & Hx & E).
+    destruct x; try discriminate; tauto.
+  Qed.
+
+  Lemma outcomes_inv cf o : In o (outcomes cf) ->
+    (exists r loc, (loc = 0 \/ loc = 3) /\ o = FSome r /\ In (JFound r) (job cf loc)) \/
+    (o = FNone /\ (In JNone (job cf 0) \/ In JErr (job cf 0)) /\ (In JNone (job cf 3) \/ In JErr (job cf 3))) \/
+    o = FHang \/
+    (o = FPanic /\ (In JPanic (job cf 0) \/ In JPanic (job cf 3))).
+  Proof.
+    unfold PCR0Search.outcomes. intro H.
+    apply in_app_or in H as [H|H]; [|apply in_app_or in H as [H|H]; [|apply in_app_or in H as [H|H]; [|apply in_app_or in H as [H|H]]]].
+    - apply j_founds_inv in H as (r & -> & H). left. exists r, 0. tauto.
+    - apply j_founds_inv in H as (r & -> & H). left. exists r, 3. tauto.
+    - destruct (j_nores (job cf 0)) eqn:E0; [|destruct H]. destruct (j_nores (job cf 3)) eqn:E3; [|destruct H].
+      destruct H as [<-|[]]. right. left. split; [reflexivity|].
+      split; now apply j_nores_true.
+    - destruct (_ || _); [|destruct H]. destruct H as [<-|[]]. tauto.
+    - destruct (j_panic (job cf 0)) eqn:E0.
+      + destruct H as [<-|[]]. right. right. right. split; [reflexivity|]. left. now apply j_panic_true.
+      + destruct (j_panic (job cf 3)) eqn:E3; [|destruct H].
+        destruct H as [<-|[]]. right. right. right. split; [reflexivity|]. right. now apply j_panic_true.
+  Qed.
+
+  (** *** Completeness *)
+  Theorem complete cf : 1 <= cf -> no_overflow -> acm_unique cf -> reachable prop_decs ->
+    forall o, In o (outcomes cf) -> (exists r, o = FSome r) \/ o = FHang.
+  Proof.
+    intros Hcf Hno Hu (loc & c & reg & s & Hloc & Hr & Hs) o Ho.
+    assert (Hs' : space (lin_decs (lin_limit st) cf) loc c reg s).
+    { eapply space_mono; [|exact Hs]. intros d Hd. apply in_prop_decs in Hd. now apply lin_decs_cover. }
+    pose proof (job_complete cf loc c reg s Hcf Hno Hu Hr Hs') as Hj.
+    apply outcomes_inv in Ho as [(r & _ & _ & -> & _)|[(-> & H0 & H3)|[->|(-> & Hp)]]].
+    - left. eauto.
+    - exfalso. assert (Hx : In JNone (job cf loc) \/ In JErr (job cf loc)) by (destruct Hloc; subst; assumption).
+      destruct Hx as [Hx|Hx]; destruct (Hj _ Hx) as [(r & E)|E]; discriminate.
+    - now right.
+    - exfalso. destruct Hp as [Hp|Hp]; revert Hp; now apply job_no_panic.
+  Qed.
+
+  (** *** No result and no error when the value is not in the searched space *)
+  Theorem none_searched cf : 1 <= cf -> no_overflow ->
+    ~ reachable (lin_decs (lin_limit st) cf) -> outcomes cf = [FNone].
+  Proof.
+    intros Hcf Hno Hun.
+    assert (Hj : forall loc, loc = 0 \/ loc = 3 -> job cf loc = [JNone]).
+    { intros loc Hloc. apply job_none; try assumption. intros c reg s Hr Hs. apply Hun.
+      exists loc, c, reg, s. tauto. }
+    unfold PCR0Search.outcomes. rewrite (Hj 0), (Hj 3) by tauto. reflexivity.
+  Qed.
+
+  Theorem none cf : 1 <= cf -> cf - 1 <= lin_limit st -> no_overflow ->
+    ~ reachable prop_decs -> outcomes cf = [FNone].
+  Proof.
+    intros Hcf Hl Hno Hun. apply none_searched; try assumption. intro H. apply Hun.
+    eapply reachable_mono; [|exact H]. intros d Hd. apply in_prop_decs. eapply lin_decs_exact; eauto.
+  Qed.
+
+  (** *** Every reported result is a point of the searched space *)
+  Theorem found_in_space cf r : 1 <= cf -> no_overflow -> In (FSome r) (outcomes cf) ->
+    exists c reg s', (r_loc r = 0 \/ r_loc r = 3) /\ in_reach c /\ r_reg r = reg /\
+      r_disabled r = disabled_of c /\ space (lin_decs (lin_limit st) cf) (r_loc r) c reg s'.
+  Proof.
+    intros Hcf Hno H. apply outcomes_found in H as (loc & Hloc & H).
+    apply job_found in H as (k & ws & Hk & Hw & cs & c & reg & sw & Hcs & Hc & Ht & ->).
+    apply try_found in Ht as (s & s' & _ & Hsp & _ & _).
+    destruct (level_workers_ok cf k Hcf Hno ltac:(lia)) as (ws' & Ew & Hval & _).
+    rewrite Hw in Ew. apply Ok_inj in Ew. subst ws'.
+    destruct (Hval cs c Hcs Hc) as (V & L).
+    exists c, reg, s'. cbn [r_loc r_reg r_disabled]. split; [exact Hloc|]. split; [split; [exact V|lia]|].
+    split; [reflexivity|]. split; [reflexivity|exact Hsp].
+  Qed.
+
+  Lemma found_reachable cf r : 1 <= cf -> no_overflow -> In (FSome r) (outcomes cf) ->
+    reachable (lin_decs (lin_limit st) cf).
+  Proof.
+    intros Hcf Hno H. destruct (found_in_space cf r Hcf Hno H) as (c & reg & s' & Hloc & Hr & _ & _ & Hs).
+    exists (r_loc r), c, reg, s'. tauto.
+  Qed.
+
+  (** *** The verdict does not depend on GOMAXPROCS *)
+  Theorem parallelism cf1 cf2 r : 1 <= cf1 -> cf1 - 1 <= lin_limit st -> 1 <= cf2 ->
+    no_overflow -> acm_unique cf2 -> In (FSome r) (outcomes cf1) ->
+    forall o, In o (outcomes cf2) -> (exists r', o = FSome r') \/ o = FHang.
+  Proof.
+    intros H1 Hl H2 Hno Hu Hr. apply (complete cf2 H2 Hno Hu).
+    apply (reachable_mono (lin_decs (lin_limit st) cf1)); [|exact (found_reachable cf1 r H1 Hno Hr)].
+    intros d Hd. apply in_prop_decs. exact (lin_decs_exact (lin_limit st) cf1 d H1 Hl Hd).
+  Qed.
+
+  Theorem parallelism_none cf1 cf2 : 1 <= cf1 -> 1 <= cf2 -> cf2 - 1 <= lin_limit st ->
+    no_overflow -> acm_unique cf1 -> outcomes cf1 = [FNone] -> outcomes cf2 = [FNone].
+  Proof.
+    intros H1 H2 Hl Hno Hu E. apply none; try assumption. intro Hr.
+    destruct (complete cf1 H1 Hno Hu Hr FNone) as [(r & Er)|Er]; try discriminate.
+    rewrite E. now left.
+  Qed.
+
 End Proofs.
+
+(** * Side conditions are satisfiable *)
+
+Lemma no_overflow_small D st (log : list (meas D)) : (length log <= 62)%nat -> no_overflow D st log.
+Proof.
+  intro H. unfold no_overflow, nlog. split.
+  - assert (Z.of_nat (length log) + 1 <= 63) by lia.
+    assert (63 < 2 ^ 63) by (vm_compute; reflexivity). lia.
+  - intros k _. pose proof (binom_le_pow2 (S (length log)) k) as B.
+    assert (2 ^ Z.of_nat (S (length log)) <= 2 ^ 63) by (apply Z.pow_le_mono_r; lia).
+    assert (2 ^ 63 < 2 ^ 64) by (vm_compute; reflexivity). lia.
+Qed.
+
+(** with MaxACMPolicyLinearDistance = 1 and MaxACMPolicyCombinatorialDistance = 0
+    a single register value is tried: [acm_unique] holds whatever the hash *)
+Lemma acm_unique_single D deqb pcr_init extend pcr0data st (log : list (meas D)) target :
+  lin_limit st = 1 -> comb_limit st = 0 ->
+  acm_unique D deqb pcr_init extend pcr0data st log target 1.
+Proof.
+  intros Hl Hc loc comb m en tail reg _ _. cbv zeta. rewrite Hl. split.
+  - intros d1 d2 H1 H2 _ _.
+    assert (E : lin_decs 1 1 = [0]) by (vm_compute; reflexivity). rewrite E in H1, H2.
+    destruct H1 as [<-|[]]. destruct H2 as [<-|[]]. reflexivity.
+  - assert (E : comb_maxd st = O) by (unfold comb_maxd; rewrite Hc; vm_compute; reflexivity).
+    rewrite E. intros k1 b1 k2 b2 Hk1 Hk2 H1 H2 _ _.
+    assert (k1 = O) by lia. assert (k2 = O) by lia. subst.
+    cbn [subsets] in H1, H2. destruct H1 as [<-|[]]. destruct H2 as [<-|[]]. reflexivity.
+Qed.
